@@ -233,16 +233,11 @@ def run_task(task, binary, spec, prop, tier, seed, workdir):
             task.result = res
             break
         # abnormal end: candidate. Confirm with the journalled case alone.
-        jr = ""
-        try:
-            with open(journal) as f:
-                jr = f.read().strip()
-        except OSError:
-            pass
+        jr, _ = read_journal(journal)
         if not jr:
             task.infra = "child ended abnormally (rc=%s) before its first case:\n%s" % (rc, tail(logf))
             break
-        sec, idx = jr.split()[0], jr.split()[-1]
+        sec, idx = jr.rsplit(None, 1)[0].strip(), jr.split()[-1]
         only = "%s:%s" % (sec, idx)
         out2 = os.path.join(workdir, "res-%s-confirm.json" % tag)
         log2 = os.path.join(workdir, "out-%s-confirm.log" % tag)
@@ -271,16 +266,33 @@ def run_task(task, binary, spec, prop, tier, seed, workdir):
         text = head(log2, 80) if rc2 is not None else tail(log2, 120)
         kind = "no-return" if rc2 is None else "process-death"
         key = crash_key(prop, head(log2, 400)) if rc2 is not None else "%s:no-return:%s" % (prop, sec)
+        _, note = read_journal(j2)
         task.extra_violations.append({
             "property": prop, "config": task.config, "tier": tier, "seed": seed, "section": sec, "index": int(idx),
             "kind": kind, "key": key,
-            "detail": {"exit": rc2, "first_exit": rc, "output": text[:8000]}})
+            "detail": {"exit": rc2, "first_exit": rc, "input_in_progress": note[:2000].decode(errors="backslashreplace"),
+                       "input_in_progress_hex": note[:2000].hex(), "output": text[:8000]}})
         task.result = {"evaluations": 0, "counters": {}, "distinct": [], "samples": [], "violations": [],
                        "exhaustive": {}, "notes": ["batch aborted by confirmed " + kind], "inconclusive": 0}
         break
     if task.config.startswith("race"):
         scan_race_logs(prop, racebase, task)
     return task
+
+
+def read_journal(path):
+    """Returns (case line, note bytes) from a journal file written by the worker (mmap layout, see core.go)."""
+    try:
+        with open(path, "rb") as f:
+            data = f.read()
+    except OSError:
+        return "", b""
+    line = data[:128].split(b"\n")[0].decode(errors="replace").strip().strip("\x00")
+    note = b""
+    if len(data) >= 136:
+        n = int.from_bytes(data[128:136], "little")
+        note = data[136:136 + n]
+    return line, note
 
 
 def load_known():
